@@ -5,6 +5,7 @@ import (
 	"fmt"
 	"os"
 	"path/filepath"
+	"runtime"
 	"strconv"
 	"strings"
 	"sync/atomic"
@@ -59,6 +60,11 @@ func twinConfig(c *core.Ctx, rng interface{ Intn(int) int }) twin.Config {
 }
 
 func runC01(c *core.Ctx) {
+	if c.Thorough() { // the batching of notifications into reads depends on how reader and consumer are scheduled
+		p := []int{16, 1, 2, 4}[c.Batch%4]
+		runtime.GOMAXPROCS(p)
+		c.Hist("gomaxprocs", fmt.Sprint(p), 1)
+	}
 	installStatHooks()
 	defer flushHookStats(c)
 	if c.Batch == 0 {
